@@ -49,6 +49,9 @@ structure Cfg where
   drillGuard : Bool
   /-- `init()` raises when an init target is the state taking it -/
   initGuard  : Bool
+  /-- the parent queries of `init()` and of dispatch's init drill-down check the status: a handler
+      that answers `None` (a fall-through state) makes them raise right after that one call -/
+  superGuard : Bool
 deriving DecidableEq, Repr
 
 structure Call where
@@ -257,11 +260,14 @@ def enterDown (tp : List St) : Nat → Ctx → Ctx
 
 inductive Climb
   | done (ip : Nat) (tp : List St) (mx : Nat) (k : Ctx)
-  | top (k : Ctx)         -- reached `top` (or a state that does not name its parent) without meeting the goal
+  | top (k : Ctx)         -- reached `top` without meeting the goal
   | index (k : Ctx)       -- IndexError on the buffer
+  | none (k : Ctx)        -- the query `tpath[ip](super_e)` answered `None`: a fall-through state
 
-/-- `while temp != goal: ip += 1; store; temp(super)`; a fall-through state leaves `temp` on itself,
-which is what the repeat-parent check of the drill-down catches (`.top`) -/
+/-- `while temp != goal: ip += 1; store; tpath[ip](super)`; a fall-through state answers `None` and
+leaves `temp` on itself (`.none`, after the store into `tpath` and the call): with `superGuard` the
+drill-down raises right there, without it the repeat-parent check catches it in the next round
+(raise if `drillGuard`, else the loop never ends) -/
 def climb (c : Chart) (goal : St) : St → List St → Nat → Nat → Ctx → Climb
   | x, tp, mx, ip, k =>
     if x = goal then .done ip tp mx k else
@@ -271,7 +277,7 @@ def climb (c : Chart) (goal : St) : St → List St → Nat → Nat → Ctx → C
       match store tp mx (ip + 1) x with
       | none => .index k
       | some (tp1, mx1) =>
-        if c.fall x then .top (probeNone x k)
+        if c.fall x then .none (probeNone x k)
         else climb c goal p tp1 mx1 (ip + 1) (probe x k)
 
 /-- the init drill-down of `dispatch` (626-646); `fuel` bounds the number of
@@ -284,10 +290,12 @@ def drill (c : Chart) (g : Cfg) : Nat → St → List St → Nat → Ctx → Out
     let tgt := k1.temp
     if g.drillGuard && tgt = t then .raise k1.log else
     let tp1 := tp.set 0 tgt
+    if g.superGuard && noSuper c tgt then .raise (probeNone tgt k1).log else
     let k2 := probeAny c tgt k1
     match climb c t k2.temp tp1 mx 0 k2 with
     | .top k3 => if g.drillGuard then .raise k3.log else .diverge k3.log
     | .index k3 => .raise k3.log
+    | .none k3 => if g.superGuard || g.drillGuard then .raise k3.log else .diverge k3.log
     | .done ip tp2 mx2 k3 =>
       let k4 := enterDown tp2 ip { k3 with temp := tgt }
       drill c g fuel tgt tp2 mx2 k4
@@ -329,15 +337,17 @@ inductive ClimbI
 
 /-- the parent walk of `init()` (392-402): raises when `top` is visited twice, and when a
 fall-through state is: its parent query leaves `temp` on itself.  `previous_super` starts as `None`,
-so the init target itself (`idx = 0`) is asked twice before the repeat is seen. -/
-def climbInit (c : Chart) (outer : St) : St → List St → Nat → Nat → Ctx → ClimbI
+so the init target itself (`idx = 0`) is asked twice before the repeat is seen.  With `superGuard`
+the `None` answer is checked first: one call, then the raise, for every `idx`. -/
+def climbInit (c : Chart) (g : Cfg) (outer : St) : St → List St → Nat → Nat → Ctx → ClimbI
   | x, tp, mx, idx, k =>
     if x = outer then .done idx tp mx k else
     match x with
     | [] => .fail k
     | _ :: p =>
       if c.fall x then
-        (if idx = 0 then
+        (if g.superGuard then .fail (probeNone x k)
+        else if idx = 0 then
           match store tp mx (idx + 1) x with
           | none => .fail (probeNone x k)
           | some _ => .fail (probeNone x (probeNone x k))
@@ -345,7 +355,7 @@ def climbInit (c : Chart) (outer : St) : St → List St → Nat → Nat → Ctx 
       else
       match store tp mx (idx + 1) p with
       | none => .fail k
-      | some (tp1, mx1) => climbInit c outer p tp1 mx1 (idx + 1) (probe x k)
+      | some (tp1, mx1) => climbInit c g outer p tp1 mx1 (idx + 1) (probe x k)
 
 /-- `index -= 1; tpath[index](entry); if index <= 0: break` for `index ≥ 1` on entry -/
 def enterInit (tp : List St) : Nat → Ctx → Ctx
@@ -361,7 +371,7 @@ def initLoop (c : Chart) (g : Cfg) : Nat → St → List St → Nat → Ctx → 
     if tgt = outer then
       (if g.initGuard then .raise k.log else .diverge k.log)
     else
-    match climbInit c outer tgt tp0 mx 0 k with
+    match climbInit c g outer tgt tp0 mx 0 k with
     | .fail k1 => .raise k1.log
     | .done idx tp1 mx1 k1 =>
       let k2 := enterInit tp1 idx { k1 with temp := tgt }
